@@ -163,6 +163,9 @@ BODY_PIECES = [b"caf\xe9", b"\xc3\xa9t\xc3\xa9", b"\x82\xa0\x82\xa2", b"\xa4\xa2
                b"<noscript><p>n</p></noscript>", b"<noscript><b>n", b"<noscript>\xe9<i></noscript>t"]
 
 
+STATE_OBSERVER_PIECES = [b"<p><table>", b"<p>q<table><tr><td>r</table>s", b"<form><form>x</form>", b"<b>bold<p>para", b"<frameset>", b"<table> </table>",
+                         b"<pre>\nx</pre>", b"<select><option>o", b"</body>z", b"<noscript><p>n</p></noscript>", b"<table>x<td>y", b"<a><table><a>"]
+
 # --------------------------------------------------------------------------
 # build
 
@@ -170,14 +173,17 @@ def build(case):
     """-> (payload bytes, bom_len, decl records).  A decl record is
     {start, end (offset of its '>'), label, effective, vis}."""
     bom = case.get("bom")
-    wide = bom in ("utf-16le", "utf-16be")
+    # the markup itself is UTF-16: either announced by a BOM, or (case["wide"]) not announced at all - then only a caller
+    # that passes a UTF-16 label as likely_encoding / default_encoding makes it readable
+    wide_enc = bom if bom in ("utf-16le", "utf-16be") else case.get("wide")
+    wide = wide_enc in ("utf-16le", "utf-16be")
     out = []
     pos = 0
     decls = []
 
     def emit_ascii(s):
         nonlocal pos
-        b = s.encode("utf-16le" if bom == "utf-16le" else "utf-16be") if wide else s.encode("ascii")
+        b = s.encode(wide_enc) if wide else s.encode("ascii")
         out.append(b)
         pos += len(b)
 
@@ -276,7 +282,10 @@ def ground_truth(case, payload_len, decls):
         return n, "transport", info
     tentative = None
     rule = None
+    unannounced_wide = case.get("wide") if case.get("wide") in ("utf-16le", "utf-16be") else None
     for d in decls:
+        if unannounced_wide:
+            break       # UTF-16 code units: the byte-level prescan finds no ASCII "<meta"
         if d["vis"] not in ("prescan", "both"):
             continue
         if d["start"] >= 1024:
@@ -308,7 +317,11 @@ def ground_truth(case, payload_len, decls):
             tentative, rule = n, "default"
     if tentative is None:
         tentative, rule = "windows-1252", "fallback"
-    if tentative in ("utf-16le", "utf-16be"):
+    if unannounced_wide and tentative != unannounced_wide:
+        # every character of the markup is followed (or preceded) by a NUL under an ASCII-compatible decoder, and is CJK
+        # noise under the other byte order: no tag is ever tokenized
+        return tentative, rule + "+utf16-markup-unreadable", info
+    if tentative in ("utf-16le", "utf-16be") and not unannounced_wide:
         # the ASCII bytes of the document do not decode to markup
         return tentative, rule + "+utf16-tentative-final", info
     if case.get("container") in NO_TREE_META_CONTAINERS:
@@ -372,7 +385,7 @@ def _pad_to(rng, parts, case, target):
     """Add padding so that the next part starts near byte offset `target`."""
     payload, _bl, _d = build(dict(case, parts=parts, torn=0))
     cur = len(payload)
-    wide = case.get("bom") in ("utf-16le", "utf-16be")
+    wide = case.get("bom") in ("utf-16le", "utf-16be") or case.get("wide") in ("utf-16le", "utf-16be")
     need = target - cur
     if wide:
         need //= 2
@@ -445,6 +458,21 @@ def gen_doc(rng):
     args["parent"] = _arg(rng, p)
     args["likely"] = _arg(rng, p)
     args["default"] = _arg(rng, p)
+    if case["bom"] is None and rng.random() < 0.05:
+        # UTF-16 markup without a BOM; usually with a caller who says so through likely_encoding / default_encoding
+        case["wide"] = rng.choice(["utf-16le", "utf-16be"])
+        args["override"] = args["transport"] = None if rng.random() < 0.85 else args["override"]
+        r2 = rng.random()
+        if r2 < 0.75:
+            same = {"utf-16le": ["utf-16le", "UTF-16LE", "utf-16", "unicode", "ucs-2"], "utf-16be": ["utf-16be", "UTF-16BE"]}[case["wide"]]
+            other = {"utf-16le": ["utf-16be"], "utf-16be": ["utf-16le", "utf-16"]}[case["wide"]]
+            lab = rng.choice(same) if r2 < 0.6 else rng.choice(other)
+            which = rng.choice(["likely", "default", "likely"])
+            args[which] = lab
+            if which == "default" and rng.random() < 0.7:
+                args["likely"] = None
+            if rng.random() < 0.7:
+                args["parent"] = None
     case["args"] = args
     case["bytes_args"] = sorted(k for k in args if args[k] is not None and rng.random() < 0.2)
     parts = []
@@ -454,8 +482,15 @@ def gen_doc(rng):
             parts.append({"t": "fill", "s": rng.choice(ESC_FILLERS)})
     _fill(rng, parts, rng.randint(0, 4))
     n_decl = rng.choice([0, 1, 1, 1, 2, 2, 3])
+    # decoder-dependent markup only matters when the two attempts of a restart decode differently: most of these documents get
+    # their (first) declaration beyond the prescan window, so that the first attempt runs under the tentative encoding
+    esc_restart = esc_doc and rng.random() < 0.6
+    if esc_restart:
+        n_decl = max(1, n_decl)
     for di in range(n_decl):
         zone = rng.random()
+        if esc_restart and di == 0:
+            zone = 0.7 + 0.28 * rng.random()
         if zone < 0.4:
             pass
         elif zone < 0.55:
@@ -483,8 +518,11 @@ def gen_doc(rng):
             # forms without the characters that would end the enclosing construct early
             form = rng.choice(["charset", "charset_pad", "charset_extra"]) if place != "attr_sq" else \
                 rng.choice(["charset", "charset_q", "charset_pad", "charset_extra", "pragma"])
+        if esc_restart and di == 0 and rng.random() < 0.7:
+            form = rng.choice(["charset", "pragma", "charset_q", "pragma_rev"])
+            place = rng.choice(["plain", "plain", "body", "after_head", "nested"])
         label = _label(rng)
-        if esc_doc and rng.random() < 0.7:
+        if esc_doc and (rng.random() < 0.7 or (esc_restart and di == 0)):
             label = rng.choice(["iso-2022-jp", "csiso2022jp", "ISO-2022-JP"])
         if rng.random() < 0.1 and place not in ("attr", "attr_sq", "pi", "bang", "endtag_attrs"):
             l1 = _label(rng, "valid")
@@ -500,6 +538,9 @@ def gen_doc(rng):
         parts.append(part)
         _fill(rng, parts, rng.randint(0, 3))
     body = b"".join(rng.choice(BODY_PIECES) for _ in range(rng.randint(1, 12)))
+    if esc_restart and rng.random() < 0.8:
+        # ... followed by observers of what the abandoned first attempt may have left behind
+        body = b"".join(rng.choice(STATE_OBSERVER_PIECES) for _ in range(rng.randint(1, 3))) + body
     if rng.random() < 0.1:
         body = body * rng.randint(20, 400)
     parts.append({"t": "body", "hex": body.hex()})
@@ -836,6 +877,8 @@ def shrinks(case):
         yield dict(case, container=None)
     if case.get("scripting"):
         yield dict(case, scripting=False)
+    if case.get("wide"):
+        yield dict(case, wide=None)
     if case.get("bom"):
         yield dict(case, bom=None)
     src = case["src"]
@@ -862,7 +905,7 @@ def describe(case):
     shown = payload if len(payload) <= 300 else payload[:300] + b"...(%d bytes)" % len(payload)
     return {"bytes": repr(shown), "args": {k: v for k, v in case["args"].items() if v is not None}, "bom": case.get("bom"),
             "bytes_args": case.get("bytes_args"), "decls": decls, "ground_truth": truth, "rule": rule, "kind": case["kind"], "chunk": case["chunk"],
-            "src": c05._short_src(case["src"]), "torn": case.get("torn", 0), "fragment_container": case.get("container"), "scripting": bool(case.get("scripting"))}
+            "src": c05._short_src(case["src"]), "torn": case.get("torn", 0), "fragment_container": case.get("container"), "scripting": bool(case.get("scripting")), "utf16_markup_without_bom": case.get("wide")}
 
 
 def plan(tier):
